@@ -1,4 +1,4 @@
-import IceModel.Bridge.ErrFlow
+import IceModel.Lemmas.ErrFlowCheck
 /-
   Error flow, part 1 (syntax): structured programs, the flattening that the translator performs
   (`facts/errflow.go`), a parser for the flat event lists, the round trip, and the structured form
